@@ -604,7 +604,15 @@ func (c *compiler) compileInstr(in ssa.Instruction) (run func(fr *frame), specul
 				fr.regs[dst] = BinBV(OpBXor, t, BV(t.W, ^uint64(0)))
 			}, true
 		case token.ARROW:
-			return func(fr *frame) { unsup("channel receive at %s", st) }, false
+			commaOk := x.CommaOk
+			return func(fr *frame) {
+				v, ok := e.chanRecv(a(fr), st)
+				if commaOk {
+					fr.regs[dst] = TupleV{v, Bool(ok)}
+				} else {
+					fr.regs[dst] = v
+				}
+			}, false
 		}
 	case *ssa.Convert:
 		dst := c.slot(x)
@@ -794,12 +802,20 @@ func (c *compiler) compileInstr(in ssa.Instruction) (run func(fr *frame), specul
 			}
 		}, false
 	case *ssa.Go:
-		return func(fr *frame) { unsup("go statement at %s", st) }, false
+		f, _ := c.compileCallDeferred(x.Common(), in, st)
+		name := x.Common().String()
+		if sf := x.Common().StaticCallee(); sf != nil {
+			name = sf.String()
+		}
+		return func(fr *frame) { e.spawn(name+" started at "+st, f(fr)) }, false
 	case *ssa.Send:
-		return func(fr *frame) { unsup("channel send at %s", st) }, false
+		ch, v := c.get(x.Chan), c.get(x.X)
+		return func(fr *frame) { e.chanSend(ch(fr), v(fr), st) }, false
 	case *ssa.MakeChan:
 		dst := c.slot(x)
-		return func(fr *frame) { fr.regs[dst] = &NativeV{v: "chan"} }, false
+		sz := c.get(x.Size)
+		el := x.Type().Underlying().(*types.Chan).Elem()
+		return func(fr *frame) { fr.regs[dst] = e.makeChan(el, toInt64(sz(fr).(*Term), x.Size.Type()), st) }, false
 	case *ssa.SliceToArrayPointer:
 		dst := c.slot(x)
 		a := c.get(x.X)
@@ -869,8 +885,22 @@ func (e *Exec) load(pv Value, st string) Value {
 	return res
 }
 
+// synchronised reports whether the current store happens inside sync.Once.Do or a sync.Mutex operation: such
+// writes to shared memory are ordered by the synchronisation primitive and are not data races (lazy
+// initialisation of library globals such as time.Local).
+func (e *Exec) synchronised() bool {
+	for i := len(e.stack) - 1; i >= 0; i-- {
+		switch e.stack[i].String() {
+		case "(*sync.Once).doSlow", "(*sync.Once).Do", "(*sync.Mutex).Lock", "(*sync.Mutex).Unlock":
+			e.Assumes["stores inside sync.Once.Do / sync.Mutex operations are synchronised (not counted as shared writes)"] = true
+			return true
+		}
+	}
+	return false
+}
+
 func (e *Exec) noteWrite(o *Object, st string) {
-	if e.frozen > 0 && o.id <= e.frozen {
+	if e.frozen > 0 && o.id <= e.frozen && !e.synchronised() {
 		e.obligation(tFalse, "assert", "write to shared memory", o.site+" <- "+st)
 	}
 	if o.id <= e.initDone {
@@ -1204,7 +1234,7 @@ func (e *Exec) mapGet(m *MapV, k Value) (Value, bool) {
 }
 
 func (e *Exec) noteMapWrite(m *MapV, st string) {
-	if m.id <= e.frozenMap {
+	if m.id <= e.frozenMap && !e.synchronised() {
 		e.obligation(tFalse, "assert", "write to shared memory", "map <- "+st)
 	}
 	if m.id <= e.initMap {
